@@ -16,13 +16,20 @@
 (*           Spellings[j] (cwd and argument re-derived here)               *)
 (*   "seed"  group = SeedCase(key); record j = j-th repetition under fresh *)
 (*           hash keys, at least MinSeeds of them                          *)
+(*   "line"  group = LineCase(key) (SyltDetLayout); record j = j-th        *)
+(*           repetition under fresh hash keys, at least LineMinSeeds       *)
+(*   "pair"  group = target program t of the name-sharing library XProg;   *)
+(*           the records are the steps of the processes PairScenario(t, s) *)
+(*           for ALL shapes s, each compiled in configuration PairCfg(t,s) *)
+(*           (into a writer / with -o into one file per process); PROGS is *)
+(*           the library XProg as the recorder rendered it                 *)
 (* A group is replayed as RunFresh / RunIn actions of SyltDetContext; when *)
 (* it is consumed, Determinism decides: TraceAccept or TraceReject (prints *)
 (* one REJECT naming the input, the two first disagreeing runs and their   *)
 (* contexts).  Any mismatch between a record and the universe is an Assert *)
 (* (tool error), never a verdict.                                          *)
 (***************************************************************************)
-EXTENDS SyltDetContext, Json, IOUtils
+EXTENDS SyltDetLayout, Json, IOUtils
 
 VARIABLES g,      \* group being validated
           j,      \* next record of the group
@@ -48,6 +55,11 @@ DiskFields(c) == [idx |-> c.idx, shape |-> c.shape, subdepth |-> c.subdepth, exp
                   expect |-> c.expect]
 SeedFields(c) == [idx |-> c.idx, fam |-> c.fam, n |-> c.n, m |-> c.m, which |-> c.which, place |-> c.place,
                   sub |-> c.sub, dup |-> c.dup, slots |-> c.slots]
+
+LineFields(c) == [idx |-> c.idx, fam |-> c.fam, n |-> c.n, k |-> c.k, layout |-> c.layout, ord |-> c.ord, pos |-> c.pos,
+                  errpos |-> c.errpos, perm |-> c.perm, lines |-> c.lines, same |-> c.same, expect |-> c.expect]
+XFields(p) == [id |-> p.id, defs |-> p.defs, stem |-> p.stem, kind |-> p.kind, site |-> p.site, locl |-> p.locl,
+               std |-> p.std, expect |-> p.expect]
 
 \* the layout of the files: groups tile the trace
 LayoutWellFormed(gg) ==
@@ -114,19 +126,54 @@ SeedWellFormed(gg) ==
     /\ Assert(N(gg) >= MinSeeds, <<"too few hash seeds", gg, N(gg), MinSeeds>>)
     /\ \A jj \in 1..N(gg) : Assert(R(gg, jj).run = jj, <<"seed run", gg, jj>>)
 
+LineWellFormed(gg) ==
+    /\ Assert(Grp[gg].key \in 1..NLineCases, <<"line case", gg>>)
+    /\ Assert(LineFields(Grp[gg].case) = LineCase(Grp[gg].key), <<"line case mismatch", gg, Grp[gg].case, LineCase(Grp[gg].key)>>)
+    /\ Assert(N(gg) >= LineMinSeeds, <<"too few hash seeds", gg, N(gg), LineMinSeeds>>)
+    /\ \A jj \in 1..N(gg) : Assert(R(gg, jj).run = jj, <<"seed run", gg, jj>>)
+
+\* kind "pair": ALL shapes of the target, in order, step by step, each in the configuration the spec demands
+XLibraryWellFormed ==
+    /\ Assert(Len(PrgRec) = NX, <<"program library size", Len(PrgRec), NX>>)
+    /\ \A i \in 1..NX : Assert(XFields(PrgRec[i]) = XProg(i), <<"program library mismatch", i, PrgRec[i], XProg(i)>>)
+
+PairWellFormed(gg) ==
+    LET t == Grp[gg].key IN
+    /\ XLibraryWellFormed
+    /\ Assert(t \in 1..NX, <<"target outside the library", gg, t>>)
+    /\ \A jj \in 1..N(gg) :
+          LET r == R(gg, jj)
+              h == PairScenario(t, r.scen)
+          IN
+          /\ Assert(r.scen \in 1..NPairShapes, <<"scenario index", gg, jj>>)
+          /\ Assert(r.step \in 1..Len(h) /\ r.prog = h[r.step], <<"scenario step is not what the spec demands", gg, jj, r.prog, h>>)
+          /\ Assert(r.cfg = PairCfg(t, r.scen), <<"configuration is not what the spec demands", gg, jj, r.cfg>>)
+          /\ Assert(r.nostd = (XProg(r.prog).std = 0), <<"std flag", gg, jj>>)
+          /\ IF jj = 1
+               THEN Assert(r.scen = 1 /\ r.step = 1, <<"group must start with its first scenario", gg>>)
+               ELSE LET q  == R(gg, jj - 1)
+                        hq == PairScenario(t, q.scen)
+                    IN Assert(\/ (r.scen = q.scen /\ r.step = q.step + 1)
+                              \/ (q.step = Len(hq) /\ r.scen = q.scen + 1 /\ r.step = 1),
+                              <<"scenario steps missing or out of order", gg, jj>>)
+          /\ (jj = N(gg)) => Assert(r.scen = NPairShapes /\ r.step = Len(h), <<"last scenario incomplete", gg>>)
+
 GroupWellFormed(gg) ==
     /\ LayoutWellFormed(gg)
     /\ CASE Kind = "hist" -> HistWellFormed(gg)
          [] Kind = "long" -> LongWellFormed(gg)
          [] Kind = "path" -> PathWellFormed(gg)
          [] Kind = "seed" -> SeedWellFormed(gg)
+         [] Kind = "line" -> LineWellFormed(gg)
+         [] Kind = "pair" -> PairWellFormed(gg)
          [] OTHER -> Assert(FALSE, <<"unknown kind", Kind>>)
 
 \* the input identity of a record inside its group, and its configuration
-InputOf(r) == IF Kind \in {"hist", "long"} THEN r.prog ELSE Grp[r.g].key
-CfgOf(r) == CASE Kind = "path" -> r.spelling [] Kind = "seed" -> "seed" [] OTHER -> "-"
+InputOf(r) == IF Kind \in {"hist", "long", "pair"} THEN r.prog ELSE Grp[r.g].key
+CfgOf(r) == CASE Kind = "path" -> r.spelling [] Kind \in {"seed", "line"} -> "seed" [] Kind = "pair" -> r.cfg [] OTHER -> "-"
 StartsProcess(r) == CASE Kind = "hist" -> r.step = 1
                       [] Kind = "long" -> r.step = 1
+                      [] Kind = "pair" -> r.step = 1
                       [] Kind = "path" -> TRUE          \* one process per spelling
                       [] OTHER -> FALSE                 \* seed repetitions share processes; their number of predecessors is not modelled
 
@@ -140,7 +187,7 @@ TraceRun ==
     /\ st = "run" /\ j <= N(g)
     /\ LET r == R(g, j)
            h == IF StartsProcess(r) THEN <<>> ELSE ph
-       IN /\ (Kind = "hist") => Assert(r.before = h, <<"recorded history differs from the history of the process", g, j, r.before, h>>)
+       IN /\ (Kind \in {"hist", "pair"}) => Assert(r.before = h, <<"recorded history differs from the history of the process", g, j, r.before, h>>)
           /\ RunFrom(h, InputOf(r), CfgOf(r), ResultOf(r))
     /\ j' = j + 1
     /\ UNCHANGED <<oracle, g, st>>
@@ -163,6 +210,7 @@ What(ra, rb) ==
 CtxOf(r) == CASE Kind = "hist" -> [scen |-> r.scen, step |-> r.step, before |-> r.before]
               [] Kind = "long" -> [step |-> r.step]
               [] Kind = "path" -> [spelling |-> r.spelling, cwd |-> r.cwd, arg |-> r.arg]
+              [] Kind = "pair" -> [scen |-> r.scen, step |-> r.step, before |-> r.before, cfg |-> r.cfg]
               [] OTHER -> [run |-> r.run]
 
 TraceReject ==
